@@ -215,10 +215,18 @@ func (en *Engine) external(st *State, fr *Frame, x *ssa.Call, name string, calle
 	}
 	switch {
 	case ct != nil:
+		// encoding/xml never assigns a field tagged xml:"-": what the target held there before the decode is still there
+		var keep []cell
+		if name == "encoding/xml.Unmarshal" && len(args) == 2 {
+			keep = en.untaggedFields(st, stripIface(args[1]))
+		}
 		for _, i := range ct.Writes {
 			if i < len(args) {
 				en.havoc(st, args[i])
 			}
+		}
+		for _, k := range keep {
+			st.heap[k.addr.Key()] = k
 		}
 	case callee != nil && en.P.inModule(callee):
 		eff := moduleEffect(en.P, callee, map[*ssa.Function]bool{})
@@ -713,4 +721,53 @@ func pluginRecv(v Val) bool {
 	}
 	_, isP := fa.X.(*ParamV)
 	return isP
+}
+
+// untaggedFields: the current content of the top-level fields of *target that carry the struct tag xml:"-".
+func (en *Engine) untaggedFields(st *State, target Val) []cell {
+	if target == nil || target.Type() == nil {
+		return nil
+	}
+	owner, ok := derefStruct(target.Type())
+	if !ok {
+		return nil
+	}
+	stt, ok := owner.Underlying().(*types.Struct)
+	if !ok {
+		return nil
+	}
+	var out []cell
+	for i := 0; i < stt.NumFields(); i++ {
+		if reflectTag(stt.Tag(i), "xml") != "-" {
+			continue
+		}
+		ft := stt.Field(i).Type()
+		addr := mkFieldAddr(target, i, owner, ft)
+		out = append(out, cell{addr, en.load(st, addr, ft)})
+	}
+	return out
+}
+
+func reflectTag(tag, key string) string {
+	// `xml:"-" json:"x"`
+	for tag != "" {
+		i := strings.Index(tag, ":\"")
+		if i < 0 {
+			return ""
+		}
+		name := strings.TrimSpace(tag[:i])
+		if j := strings.LastIndex(name, " "); j >= 0 {
+			name = name[j+1:]
+		}
+		rest := tag[i+2:]
+		k := strings.Index(rest, "\"")
+		if k < 0 {
+			return ""
+		}
+		if name == key {
+			return rest[:k]
+		}
+		tag = rest[k+1:]
+	}
+	return ""
 }
